@@ -4,6 +4,7 @@ package gen
 import (
 	"math/rand/v2"
 	"time"
+	"verifharness/refts"
 
 	"github.com/asticode/go-astits"
 )
@@ -525,8 +526,11 @@ func genVBIData(r *rand.Rand, d *astits.Descriptor, max int) int {
 				})
 			}
 		}
+		if n := refts.VBIReservedBytes(s.DataServiceID); n > 0 && max-used-2 < n {
+			continue // no room for the reserved bytes of this id
+		}
 		v.Services = append(v.Services, s)
-		used += 2 + len(s.Descriptors)
+		used += 2 + len(s.Descriptors) + refts.VBIReservedBytes(s.DataServiceID)
 	}
 	d.VBIData = v
 	return used
